@@ -45,6 +45,24 @@ def doc2() -> dict:
     return doc
 
 
+def doc3(order: str) -> dict:
+    """DOC plus an operation that declares TWO parameters in every location (both writing orders of the parameter list):
+    several configured overrides then meet in one container of one operation."""
+    doc = copy.deepcopy(doc1())
+    params = [
+        {"name": "id", "in": "path", "required": True, "schema": {"type": "integer", "example": 5}},
+        {"name": "id2", "in": "path", "required": True, "schema": {"type": "integer", "example": 8}},
+        {"name": "q", "in": "query", "required": True, "schema": {"type": "integer", "example": 3}},
+        {"name": "q2", "in": "query", "schema": {"type": "integer", "example": 9}},
+        {"name": "X-H", "in": "header", "schema": {"type": "string", "example": "gen"}},
+        {"name": "X-H2", "in": "header", "required": True, "schema": {"type": "string", "example": "gen2"}},
+        {"name": "c", "in": "cookie", "schema": {"type": "string", "example": "gen"}},
+        {"name": "c2", "in": "cookie", "schema": {"type": "string", "example": "gen2"}},
+    ]
+    doc["paths"]["/two/{id}/{id2}"] = {"get": {"parameters": params if order == "fwd" else params[::-1], "responses": OK}}
+    return doc
+
+
 OPS1 = {
     "GET /r/{id}": {"query": {"q"}, "headers": {"X-H"}, "cookies": {"c"}, "path_parameters": {"id"}},
     "GET /plain": {"query": {"z"}, "headers": set(), "cookies": set(), "path_parameters": set()},
@@ -54,6 +72,9 @@ OPS1 = {
 OPS2 = {**OPS1,
         "GET /b": {"query": {"X-H"}, "headers": {"q"}, "cookies": set(), "path_parameters": set()},
         "GET /n": {"query": set(), "headers": set(), "cookies": set(), "path_parameters": set()}}
+OPS3 = {**OPS1,
+        "GET /two/{id}/{id2}": {"query": {"q", "q2"}, "headers": {"X-H", "X-H2"}, "cookies": {"c", "c2"},
+                                "path_parameters": {"id", "id2"}, "template": "/two/{id}/{id2}"}}
 SECURED = {"POST /users", "GET /users/{id}", "GET /b"}
 GQL_OPS = {"Query.getBooks": {"query": set(), "headers": set(), "cookies": set(), "path_parameters": set()},
            "Mutation.addBook": {"query": set(), "headers": set(), "cookies": set(), "path_parameters": set()}}
@@ -68,6 +89,10 @@ ATOMS2: dict[str, dict] = {
     "set_header_lower": {"kind": "override", "location": "headers", "name": "x-h", "value": "U5"},
     "set_query_undeclared": {"kind": "override", "location": "query", "name": "nope", "value": "1"},
     "set_cookie_undeclared": {"kind": "override", "location": "cookies", "name": "nope", "value": "1"},
+    "set_query2": {"kind": "override", "location": "query", "name": "q2", "value": "42"},
+    "set_header2": {"kind": "override", "location": "headers", "name": "X-H2", "value": "U52"},
+    "set_cookie2": {"kind": "override", "location": "cookies", "name": "c2", "value": "U62"},
+    "set_path2": {"kind": "override", "location": "path_parameters", "name": "id2", "value": "78"},
     "provider_key": {"kind": "provider", "scope": "schema", "header": "X-Key", "value": "U8", "filters": []},
     "provider_plain": {"kind": "provider", "scope": "schema", "header": "X-Token", "value": "U8", "filters": []},
     "provider_uncached": {"kind": "provider", "scope": "schema", "header": "X-Token", "value": "U8", "filters": [], "refresh": None},
@@ -129,6 +154,10 @@ MORE_PROVIDERS = ["provider_uncached", "provider_refresh_0", "provider_keyed", "
                   "provider_skip_method", "provider_requests", "provider_requests_apply_to", "provider_requests_skip_for",
                   "global_plain", "global_skip_for", "set_header_lower", "header_lower_same_as_param"]
 PHASES = ["examples", "coverage", "fuzzing", "stateful"]
+# several overrides that meet in ONE container of ONE operation (DOC3): every same-location pair, both orders of the atoms
+SAME_LOCATION_PAIRS = [("set_query", "set_query2"), ("set_header", "set_header2"), ("set_cookie", "set_cookie2"),
+                       ("set_path", "set_path2")]
+ALL_OVERRIDES = ["set_query", "set_query2", "set_header", "set_header2", "set_cookie", "set_cookie2", "set_path", "set_path2"]
 API_ATOMS = ["test_auth", "test_auth_keyed", "test_auth_apply_to", "test_auth_skip_for", "test_auth_both", "schema_auth",
              "schema_auth_apply_to", "global_auth_keyed", "provider_requests", "provider_requests_apply_to", "set_query",
              "set_header", "set_cookie", "set_path", "call_header_authorization", "call_header_same_as_param"]
@@ -165,6 +194,14 @@ def extra_items(tier: str) -> list[dict]:
         a2(name, "all", workers=2)
     for name in ("header_key", "provider_key"):
         a2(name, "all", doc="DOC2", checks="all", modes="both")
+    for phase in PHASES:
+        for order in ("fwd", "rev"):
+            for pair in SAME_LOCATION_PAIRS:
+                a2(pair, phase, doc="DOC3" + order)
+                a2(pair[::-1], phase, doc="DOC3" + order)
+            a2(ALL_OVERRIDES, phase, doc="DOC3" + order)
+    for phase in ("coverage", "fuzzing"):
+        a2(ALL_OVERRIDES[::-1], phase, doc="DOC3fwd", modes="both")
     for transport in ("requests", "wsgi", "asgi"):
         for name in API_ATOMS:
             if transport == "wsgi" and atom(name).get("requests_auth"):
@@ -332,7 +369,13 @@ def judge(res: Result, base: dict, item: dict, names: list[str], requests_seen: 
                     if pairs.get(pname) != value:
                         res.violation({**sig, "kind": "cookie_override_missing_or_overwritten"}, detail | {"observed": cookie})
                 elif loc == "path_parameters":
-                    segment = req["path"].rstrip("/").rsplit("/", 1)[-1]
+                    template = ops[op].get("template")
+                    if template is None:
+                        segment = req["path"].rstrip("/").rsplit("/", 1)[-1]
+                    else:
+                        t_parts, p_parts = template.split("/"), req["path"].split("/")
+                        at = t_parts.index("{" + pname + "}")
+                        segment = p_parts[at] if len(p_parts) == len(t_parts) else None
                     if segment != value:
                         res.violation({**sig, "kind": "path_override_missing_or_overwritten"}, detail | {"observed": segment})
             elif a["kind"] == "provider":
@@ -377,6 +420,8 @@ def _operation(path: str, ops: dict) -> str | None:
         return "GET /r/{id}"
     if path.startswith("/users/"):
         return "GET /users/{id}"
+    if path.startswith("/two/"):
+        return "GET /two/{id}/{id2}" if "GET /two/{id}/{id2}" in ops else None
     table = {"/plain": "GET /plain", "/users": "POST /users", "/b": "GET /b", "/n": "GET /n"}
     op = table.get(path)
     return op if op in ops else None
@@ -409,7 +454,10 @@ def check_a2(item: dict, tier: str) -> Result:
     res = Result()
     names = item["atoms"]
     atoms = [atom(n) for n in names]
-    doc, ops = (doc2(), OPS2) if item["doc"] == "DOC2" else (doc1(), OPS1)
+    if item["doc"].startswith("DOC3"):
+        doc, ops = doc3(item["doc"][4:]), OPS3
+    else:
+        doc, ops = (doc2(), OPS2) if item["doc"] == "DOC2" else (doc1(), OPS1)
     modes = [GenerationMode.POSITIVE, GenerationMode.NEGATIVE] if item["modes"] == "both" else [GenerationMode.POSITIVE]
     generation = GenerationConfig(modes=modes, with_security_parameters=item["security_parameters"])
     schema = engine.load_schema(doc, generation=generation)
@@ -498,6 +546,8 @@ def check_a2(item: dict, tier: str) -> Result:
     res.outcomes.add(("a2", item["phase"], bool(run.exchanges), bool(probes)))
     if any(ex.path.startswith("/users/7") for ex in run.exchanges):
         res.count("a2_runs_with_link_derived_requests")
+    if item["doc"].startswith("DOC3") and any(r["op"] == "GET /two/{id}/{id2}" and not r["probe"] for r in seen):
+        res.count("a2_runs_with_several_overrides_in_one_container")
     if not res.samples and run.exchanges:
         res.samples.append({"item": item, "requests": [x.as_json() for x in run.exchanges[:3]]})
     return res
@@ -686,6 +736,7 @@ def vacuity(total: Result, tier: str) -> list[str]:
         ("runs_with_two_sending_workers", "no 2-worker run sent from two threads"),
         ("runs_with_provider_get_logged", "the provider.get call log stayed empty"),
         ("a2_runs_with_link_derived_requests", "no a2 stateful run followed a link"),
+        ("a2_runs_with_several_overrides_in_one_container", "no request to the operation with two parameters per location was judged"),
         ("python_api_runs_with_requests_requests", "Python-API items sent nothing through requests"),
         ("python_api_runs_with_requests_wsgi", "Python-API items sent nothing through WSGI"),
         ("python_api_runs_with_requests_asgi", "Python-API items sent nothing through ASGI"),
